@@ -74,6 +74,20 @@ def gen_cubes(tier, seed):
             dtype = "int16"
             pixels = [[float(int(round(max(-32000, min(32000, x))))) for x in px] for px in pixels]
         cubes.append((pixels, nd, st, sp, api, dtype, "+".join(kinds)))
+    # low-variance calibration windows with later observations at many ratios of the mean: finite indices far
+    # beyond the int16 range (tail probabilities between 1e-308 and 1e-235) as well as exact 0 / 1
+    for _ in range(8 if quick else 80):
+        cv = rng.choice([0.01, 0.03, 0.1])
+        T = 36
+        sp = 24
+        base = [float(round(1000 * (1 + rs.normal(0, cv)))) for _ in range(T)]
+        pixels = []
+        for ratio in rng.sample([0.1, 0.2, 0.25, 0.3, 0.4, 0.5, 0.6, 0.7, 0.8, 0.9, 1.1, 1.3, 1.6, 2.0, 3.0], 4):
+            xs = list(base)
+            xs[rng.randrange(sp, T)] = float(round(1000 * ratio))
+            pixels.append(xs)
+        api = rng.choice(["yxt", "grp", "grp", "accessor"])
+        cubes.append((pixels, nd, 0, sp, api, "int16", f"lowvar-sweep cv={cv}"))
     return cubes
 
 
